@@ -2,15 +2,19 @@
 (***************************************************************************)
 (* How the managed webhook configurations follow their two sources         *)
 (* (running.py: the tasks "admission webhook server", "admission insights  *)
-(* chain", the validating and the mutating "configuration manager";        *)
-(* aiovalues.Container, aiobindings.condition_chain, the observers'        *)
-(* `async with insights.revised: ... notify_all()`), with asyncio's Lock   *)
-(* and Condition as they behave (FIFO hand-over, wait = release + queue +  *)
-(* re-acquire):                                                            *)
+(* chain", the validating and the mutating "configuration manager", the    *)
+(* orchestrator; aiovalues.Container, aiobindings.condition_chain, the     *)
+(* observers' `async with insights.revised: ... notify_all()`), with       *)
+(* asyncio's Lock and Condition as they behave (a free lock is taken at    *)
+(* once, else FIFO hand-over; wait = release + queue for the notification; *)
+(* a notified task runs again and takes or queues for the lock like        *)
+(* anybody else):                                                          *)
 (*   server    container.set(cc): under `changed`, notify_all              *)
-(*   observer  revises the resources: under `revised`, notify_all          *)
+(*   observer  (several: the observers' own tasks and their workers)       *)
+(*             revises the insights: under `revised`, notify_all           *)
 (*   chain     async with revised: forever { wait(revised);                *)
 (*                       async with changed: notify_all(changed) }         *)
+(*   orch      async with revised: forever { wait(revised); adjust }       *)
 (*   manager m async with changed: forever { if a value is there:          *)
 (*                 build from (value, resources NOW) and PATCH;            *)
 (*                 wait(changed) }                                         *)
@@ -19,89 +23,108 @@
 (* system never deadlocks.  Variant "unlocked" is a chain that lets go of  *)
 (* `revised` between the wake-up and the notification: a revision made in  *)
 (* that gap is lost (the witness configuration must fail).                 *)
-(* Bound to the code through its consequence: the configuration objects    *)
-(* that the real operator leaves in the cluster at rest (vf/webhooks.py,   *)
-(* managed_case) are built from the latest client config and the kinds     *)
-(* that are there.                                                         *)
+(* Bound to the code twice: by trace validation (Trace_Managed: the two    *)
+(* conditions of a real operator replaced by recording ones, every lock /  *)
+(* condition event and every build of a configuration is one step here),   *)
+(* and through its consequence -- the configuration objects the operator   *)
+(* leaves in the cluster at rest (vf/webhooks.py).                         *)
 (***************************************************************************)
 EXTENDS Naturals, Sequences, FiniteSets, TLC
-CONSTANTS MaxCC, MaxRes, Variant
+CONSTANTS MaxCC, MaxRev, ResVals, Obs, Variant
 Mgrs == {"V", "M"}
-Tasks == {"server", "observer", "chain"} \cup Mgrs
+Tasks == {"server", "chain", "orch"} \cup Mgrs \cup Obs
 NoTask == "none"
-VARIABLES cc, res,            \* the versions of the client config (0: none yet) and of the resources
+VARIABLES cc, res, nrev,      \* the client config (0: none yet), the resources, how many revisions were made
           holder, lockQ,      \* per lock ("rev", "chg"): who holds it, who queues for it (FIFO)
-          condQ,              \* per condition: who waits for a notification (FIFO)
+          condQ,              \* per condition: who waits for a notification
           pc, cfg             \* per task: where it is; per manager: what its last PATCH was built from
-vars == <<cc, res, holder, lockQ, condQ, pc, cfg>>
+vars == <<cc, res, nrev, holder, lockQ, condQ, pc, cfg>>
 Locks == {"rev", "chg"}
 
-\* The chain is created before the observers and reaches its first wait() in its very first step (a free lock is acquired without
-\* yielding), so it is already waiting when anything else moves.  Variant "latechain" drops that: the chain starts like any other
-\* task -- a revision made before it waits is lost (the second witness: the design leans on the order in which the tasks are made).
-Init == /\ cc = 0 /\ res = 0
+\* The chain and the orchestrator are created before the observers and reach their first wait() in their very first step (a free
+\* lock is acquired without yielding), so they are already waiting when anything else moves.  Variant "latechain" drops that for the
+\* chain: it starts like any other task -- a revision made before it waits is lost (the second witness: the design leans on the order
+\* in which the tasks are made).  Variant "trace" starts everybody at the beginning: the recorded execution shows who waits first.
+Early == IF Variant = "trace" THEN {} ELSE IF Variant = "latechain" THEN {"orch"} ELSE {"chain", "orch"}
+Init == /\ cc = 0 /\ res = 0 /\ nrev = 0
         /\ holder = [k \in Locks |-> NoTask] /\ lockQ = [k \in Locks |-> <<>>]
-        /\ condQ = [k \in Locks |-> IF k = "rev" /\ Variant # "latechain" THEN <<"chain">> ELSE <<>>]
-        /\ pc = [t \in Tasks |-> IF t = "chain" /\ Variant # "latechain" THEN "woken" ELSE "start"] /\ cfg = [m \in Mgrs |-> <<0, 0>>]
+        /\ condQ = [k \in Locks |-> IF k = "rev" THEN Early ELSE {}]
+        /\ pc = [t \in Tasks |-> IF t \in Early THEN "waiting" ELSE "start"] /\ cfg = [m \in Mgrs |-> <<0, 0>>]
 
 \* ---- asyncio.Lock / asyncio.Condition
-Acquire(t, k, then, queued) ==      \* `async with k:` -- at once if free and nobody queues, else behind the others
-  IF holder[k] = NoTask /\ lockQ[k] = <<>>
-  THEN holder' = [holder EXCEPT ![k] = t] /\ pc' = [pc EXCEPT ![t] = then] /\ UNCHANGED lockQ
-  ELSE lockQ' = [lockQ EXCEPT ![k] = Append(@, t)] /\ pc' = [pc EXCEPT ![t] = queued] /\ UNCHANGED holder
+Free(k) == holder[k] = NoTask /\ lockQ[k] = <<>>
+Take(t, k, then) == Free(k) /\ holder' = [holder EXCEPT ![k] = t] /\ pc' = [pc EXCEPT ![t] = then] /\ UNCHANGED lockQ
+Queue(t, k, queued) == ~Free(k) /\ lockQ' = [lockQ EXCEPT ![k] = Append(@, t)] /\ pc' = [pc EXCEPT ![t] = queued] /\ UNCHANGED holder
+Acquire(t, k, then, queued) == Take(t, k, then) \/ Queue(t, k, queued)
 Granted(t, k) == holder[k] = t
 ReleaseTo(k) ==                     \* release(): the first one queueing gets the lock
   IF lockQ[k] = <<>> THEN holder' = [holder EXCEPT ![k] = NoTask] /\ UNCHANGED lockQ
   ELSE holder' = [holder EXCEPT ![k] = Head(lockQ[k])] /\ lockQ' = [lockQ EXCEPT ![k] = Tail(@)]
-\* wait(): release the lock, queue for the notification; notify_all(): the waiters queue for the lock, in their order
-WaitOn(t, k, then) == /\ ReleaseTo(k) /\ condQ' = [condQ EXCEPT ![k] = Append(@, t)] /\ pc' = [pc EXCEPT ![t] = then]
-NotifyAll(k) == /\ lockQ' = [lockQ EXCEPT ![k] = @ \o condQ[k]] /\ condQ' = [condQ EXCEPT ![k] = <<>>]
+\* wait(): release the lock, wait for the notification; notify_all(): the waiters run again (and take or queue for the lock themselves)
+WaitOn(t, k) == /\ ReleaseTo(k) /\ condQ' = [condQ EXCEPT ![k] = @ \cup {t}] /\ pc' = [pc EXCEPT ![t] = "waiting"]
+NotifyAll(t, k, then) == /\ condQ' = [condQ EXCEPT ![k] = {}]
+                         /\ pc' = [x \in Tasks |-> IF x \in condQ[k] THEN "notified" ELSE IF x = t THEN then ELSE pc[x]]
+Only(t) == \A x \in Tasks \ {t} : pc'[x] = pc[x]
 
-\* ---- the tasks
-Server ==
-  \/ /\ pc["server"] = "start" /\ cc < MaxCC /\ Acquire("server", "chg", "set", "q") /\ UNCHANGED <<cc, res, condQ, cfg>>
-  \/ /\ pc["server"] = "q" /\ Granted("server", "chg") /\ pc' = [pc EXCEPT !["server"] = "set"] /\ UNCHANGED <<cc, res, holder, lockQ, condQ, cfg>>
-  \/ /\ pc["server"] = "set" /\ cc' = cc + 1 /\ NotifyAll("chg") /\ pc' = [pc EXCEPT !["server"] = "rel"] /\ UNCHANGED <<res, holder, cfg>>
-  \/ /\ pc["server"] = "rel" /\ ReleaseTo("chg") /\ pc' = [pc EXCEPT !["server"] = "start"] /\ UNCHANGED <<cc, res, condQ, cfg>>
-Observer ==
-  \/ /\ pc["observer"] = "start" /\ res < MaxRes /\ Acquire("observer", "rev", "set", "q") /\ UNCHANGED <<cc, res, condQ, cfg>>
-  \/ /\ pc["observer"] = "q" /\ Granted("observer", "rev") /\ pc' = [pc EXCEPT !["observer"] = "set"] /\ UNCHANGED <<cc, res, holder, lockQ, condQ, cfg>>
-  \/ /\ pc["observer"] = "set" /\ res' = res + 1 /\ NotifyAll("rev") /\ pc' = [pc EXCEPT !["observer"] = "rel"] /\ UNCHANGED <<cc, holder, cfg>>
-  \/ /\ pc["observer"] = "rel" /\ ReleaseTo("rev") /\ pc' = [pc EXCEPT !["observer"] = "start"] /\ UNCHANGED <<cc, res, condQ, cfg>>
-Chain ==
-  LET t == "chain" IN
-  \/ /\ pc[t] = "start" /\ Acquire(t, "rev", "wait", "q0") /\ UNCHANGED <<cc, res, condQ, cfg>>
-  \/ /\ pc[t] = "q0" /\ Granted(t, "rev") /\ pc' = [pc EXCEPT ![t] = "wait"] /\ UNCHANGED <<cc, res, holder, lockQ, condQ, cfg>>
-  \/ /\ pc[t] = "wait" /\ WaitOn(t, "rev", "woken") /\ UNCHANGED <<cc, res, cfg>>
-  \/ /\ pc[t] = "woken" /\ Granted(t, "rev")           \* notified and the lock re-acquired
-     /\ IF Variant = "unlocked" THEN ReleaseTo("rev") /\ pc' = [pc EXCEPT ![t] = "tgt"] ELSE pc' = [pc EXCEPT ![t] = "tgt"] /\ UNCHANGED <<holder, lockQ>>
-     /\ UNCHANGED <<cc, res, condQ, cfg>>
-  \/ /\ pc[t] = "tgt" /\ Acquire(t, "chg", "notify", "q1") /\ UNCHANGED <<cc, res, condQ, cfg>>
-  \/ /\ pc[t] = "q1" /\ Granted(t, "chg") /\ pc' = [pc EXCEPT ![t] = "notify"] /\ UNCHANGED <<cc, res, holder, lockQ, condQ, cfg>>
-  \/ /\ pc[t] = "notify" /\ NotifyAll("chg") /\ pc' = [pc EXCEPT ![t] = "rel"] /\ UNCHANGED <<cc, res, holder, cfg>>
-  \/ /\ pc[t] = "rel" /\ ReleaseTo("chg") /\ pc' = [pc EXCEPT ![t] = IF Variant = "unlocked" THEN "start" ELSE "wait"] /\ UNCHANGED <<cc, res, condQ, cfg>>
+\* ---- the tasks (every disjunct is one step; the names are those of the trace events)
+LockNow(t, k, from, then) == pc[t] = from /\ Take(t, k, then) /\ UNCHANGED <<cc, res, nrev, condQ, cfg>>
+LockQueue(t, k, from, queued) == pc[t] = from /\ Queue(t, k, queued) /\ UNCHANGED <<cc, res, nrev, condQ, cfg>>
+LockGot(t, k, queued, then) == pc[t] = queued /\ Granted(t, k) /\ pc' = [pc EXCEPT ![t] = then] /\ UNCHANGED <<cc, res, nrev, holder, lockQ, condQ, cfg>>
+LockRel(t, k, from, then) == pc[t] = from /\ Granted(t, k) /\ ReleaseTo(k) /\ pc' = [pc EXCEPT ![t] = then] /\ UNCHANGED <<cc, res, nrev, condQ, cfg>>
+CondWait(t, k, from) == pc[t] = from /\ Granted(t, k) /\ WaitOn(t, k) /\ UNCHANGED <<cc, res, nrev, cfg>>
+CondWake(t) == pc[t] = "notified" /\ pc' = [pc EXCEPT ![t] = "reacq"] /\ UNCHANGED <<cc, res, nrev, holder, lockQ, condQ, cfg>>
+
+Server == LET t == "server" IN
+  \/ cc < MaxCC /\ (LockNow(t, "chg", "start", "set") \/ LockQueue(t, "chg", "start", "q"))
+  \/ LockGot(t, "chg", "q", "set")
+  \/ pc[t] = "set" /\ cc' = cc + 1 /\ NotifyAll(t, "chg", "rel") /\ UNCHANGED <<res, nrev, holder, lockQ, cfg>>
+  \/ LockRel(t, "chg", "rel", "start")
+Observer(t) ==
+  \/ nrev < MaxRev /\ (LockNow(t, "rev", "start", "set") \/ LockQueue(t, "rev", "start", "q"))
+  \/ LockGot(t, "rev", "q", "set")
+  \* the insights are revised under the lock (the resources may change or not: a revision of the namespaces leaves them), then notified;
+  \* the managers do not take this lock: they may read the new resources before the notification is out
+  \/ pc[t] = "set" /\ res' \in ResVals /\ nrev' = nrev + 1 /\ pc' = [pc EXCEPT ![t] = "set2"] /\ UNCHANGED <<cc, holder, lockQ, condQ, cfg>>
+  \/ pc[t] \in {"set", "set2"} /\ nrev' = (IF pc[t] = "set" THEN nrev + 1 ELSE nrev) /\ NotifyAll(t, "rev", "rel") /\ UNCHANGED <<cc, res, holder, lockQ, cfg>>
+  \/ LockRel(t, "rev", "rel", "start")
+Chain == LET t == "chain" IN
+  \/ LockNow(t, "rev", "start", "held") \/ LockQueue(t, "rev", "start", "q0") \/ LockGot(t, "rev", "q0", "held")
+  \/ CondWait(t, "rev", "held")
+  \/ CondWake(t)
+  \/ LockNow(t, "rev", "reacq", "woken") \/ LockQueue(t, "rev", "reacq", "rq") \/ LockGot(t, "rev", "rq", "woken")
+  \/ (Variant = "unlocked" /\ LockRel(t, "rev", "woken", "tgt"))
+  \/ LockNow(t, "chg", IF Variant = "unlocked" THEN "tgt" ELSE "woken", "notify")
+  \/ LockQueue(t, "chg", IF Variant = "unlocked" THEN "tgt" ELSE "woken", "q1") \/ LockGot(t, "chg", "q1", "notify")
+  \/ pc[t] = "notify" /\ NotifyAll(t, "chg", "rel") /\ UNCHANGED <<cc, res, nrev, holder, lockQ, cfg>>
+  \/ LockRel(t, "chg", "rel", IF Variant = "unlocked" THEN "start" ELSE "held")
+Orch == LET t == "orch" IN
+  \/ LockNow(t, "rev", "start", "held") \/ LockQueue(t, "rev", "start", "q0") \/ LockGot(t, "rev", "q0", "held")
+  \/ CondWait(t, "rev", "held")
+  \/ CondWake(t)
+  \/ LockNow(t, "rev", "reacq", "held") \/ LockQueue(t, "rev", "reacq", "rq") \/ LockGot(t, "rev", "rq", "held")      \* (adjust_tasks, then wait again)
 Manager(m) ==
-  \/ /\ pc[m] = "start" /\ Acquire(m, "chg", "look", "q") /\ UNCHANGED <<cc, res, condQ, cfg>>
-  \/ /\ pc[m] = "q" /\ Granted(m, "chg") /\ pc' = [pc EXCEPT ![m] = "look"] /\ UNCHANGED <<cc, res, holder, lockQ, condQ, cfg>>
+  \/ LockNow(m, "chg", "start", "look") \/ LockQueue(m, "chg", "start", "q") \/ LockGot(m, "chg", "q", "look")
   \* a value is there: build from it and from the resources as they are now, PATCH (the lock is held all the while); none: just wait
   \/ /\ pc[m] = "look" /\ cfg' = IF cc # 0 THEN [cfg EXCEPT ![m] = <<cc, res>>] ELSE cfg
-     /\ pc' = [pc EXCEPT ![m] = "patched"] /\ UNCHANGED <<cc, res, holder, lockQ, condQ>>
-  \/ /\ pc[m] = "patched" /\ WaitOn(m, "chg", "woken") /\ UNCHANGED <<cc, res, cfg>>
-  \/ /\ pc[m] = "woken" /\ Granted(m, "chg") /\ pc' = [pc EXCEPT ![m] = "look"] /\ UNCHANGED <<cc, res, holder, lockQ, condQ, cfg>>
-Next == Server \/ Observer \/ Chain \/ \E m \in Mgrs : Manager(m)
+     /\ pc' = [pc EXCEPT ![m] = "patched"] /\ UNCHANGED <<cc, res, nrev, holder, lockQ, condQ>>
+  \/ CondWait(m, "chg", "patched")
+  \/ CondWake(m)
+  \/ LockNow(m, "chg", "reacq", "look") \/ LockQueue(m, "chg", "reacq", "rq") \/ LockGot(m, "chg", "rq", "look")
+Next == Server \/ Chain \/ Orch \/ (\E o \in Obs : Observer(o)) \/ (\E m \in Mgrs : Manager(m))
 Spec == Init /\ [][Next]_vars /\ WF_vars(Next)
 
 \* ---- properties
 InQ(t, q) == \E i \in DOMAIN q : q[i] = t
-LockDiscipline == \A k \in Locks : \A i, j \in DOMAIN lockQ[k] : i # j => lockQ[k][i] # lockQ[k][j]
+LockDiscipline == /\ \A k \in Locks : \A i, j \in DOMAIN lockQ[k] : i # j => lockQ[k][i] # lockQ[k][j]
+                  /\ \A k \in Locks : \A t \in Tasks : ~(holder[k] = t /\ InQ(t, lockQ[k]))
 AtRest == ~ENABLED Next
 \* at rest every manager's last PATCH was built from the latest client config and the latest resources
 AtRestLatest == AtRest => (cc = 0 \/ \A m \in Mgrs : cfg[m] = <<cc, res>>)
-\* at rest everybody sleeps where he is meant to: the sources are exhausted, the chain and the managers wait for a notification
-NoDeadlock == AtRest => /\ pc["server"] = "start" /\ pc["observer"] = "start" /\ cc = MaxCC /\ res = MaxRes
-                        /\ InQ("chain", condQ["rev"]) /\ \A m \in Mgrs : InQ(m, condQ["chg"])
+\* at rest everybody sleeps where he is meant to: the sources are exhausted, the chain, the orchestrator and the managers wait
+NoDeadlock == AtRest => /\ pc["server"] = "start" /\ (\A o \in Obs : pc[o] = "start") /\ cc = MaxCC /\ nrev >= MaxRev
+                        /\ {"chain", "orch"} \subseteq condQ["rev"] /\ Mgrs \subseteq condQ["chg"]
                         /\ \A k \in Locks : holder[k] = NoTask
-\* a PATCH is never built from something older than the previous one of the same manager
-Monotone == [][\A m \in Mgrs : cfg'[m][1] >= cfg[m][1] /\ cfg'[m][2] >= cfg[m][2]]_vars
-Eventually == <>[](cc = MaxCC /\ res = MaxRes /\ \A m \in Mgrs : cfg[m] = <<cc, res>>)
+\* a PATCH is never built from a client config older than the previous one of the same manager
+Monotone == [][\A m \in Mgrs : cfg'[m][1] >= cfg[m][1]]_vars
+Eventually == <>[](cc = MaxCC /\ nrev >= MaxRev /\ \A m \in Mgrs : cfg[m] = <<cc, res>>)
 =============================================================================
